@@ -7,7 +7,7 @@ VARIABLE hist
 GenInit == Init /\ hist = <<obs>>
 GenNext == Next /\ hist' = Append(hist, obs')
 GenSpec == GenInit /\ [][GenNext]_<<vars, hist>>
-View == <<flat, cur, cont, mode>>
+View == <<flat, cur, cont, mode, ebase>>
 \* the export can be split over several TLC processes by message content
 RECURSIVE Hash(_)
 Hash(s) == IF s = <<>> THEN 7 ELSE (Hash(Tail(s)) * 31 + s[1] + 1) % 1009
